@@ -21,6 +21,36 @@ EDIT = ["modify", "modify_if", "unselect", "fill_missing_keys", "left_join", "in
 FRESH = ["rename", "select"]
 
 
+PROBES = ["sort", "sort_desc", "unique", "filter_kv", "filter_out_kv", "drop_na", "semi_join", "anti_join", "pluck", "group_aggregate", "to_string"]
+
+
+def probe(lod, st, other):
+    m, key = st["m"], st["key"]
+    if m == "sort":
+        return lod.sort(**{key: 1})
+    if m == "sort_desc":
+        return lod.sort(a=1, **{key: -1})
+    if m == "unique":
+        return lod.unique(key)
+    if m == "filter_kv":
+        return lod.filter(**{key: 1})
+    if m == "filter_out_kv":
+        return lod.filter_out(**{key: 1})
+    if m == "drop_na":
+        return lod.drop_na(key)
+    if m == "semi_join":
+        return lod.semi_join(other, ("a", "a"), (key, "q"))
+    if m == "anti_join":
+        return lod.anti_join(other, (key, "q"))
+    if m == "pluck":
+        return lod.pluck(key)
+    if m == "group_aggregate":
+        return lod.group_by(key).aggregate(n=len)
+    if m == "to_string":
+        return lod.to_string()
+    raise ValueError(m)
+
+
 def gen_history(rng, tier):
     n0 = rng.randint(1, 5)
     k = rng.randint(3, 12) if tier == "quick" else rng.randint(3, 30)
@@ -37,12 +67,16 @@ def gen_history(rng, tier):
             st = {"k": "fresh", "m": rng.choice(FRESH), "r": r}
         elif c < 0.80:
             st = {"k": "deepcopy", "m": rng.choice(["deepcopy", "copy.deepcopy"]), "r": r}
-        elif c < 0.92:
+        elif c < 0.86:
             st = {"k": "use", "m": "pluck", "r": r}
+        elif c < 0.93:
+            # a non-modifying method asked for a key that only some items (or none) have: it may raise
+            # KeyError or succeed, but it must not write into any item (result discarded)
+            st = {"k": "probe", "m": rng.choice(PROBES), "r": r, "key": rng.choice(["w", "z", "zz", "poked", "nokey"])}
         else:
             st = {"k": "poke", "m": rng.choice(["top", "nested"]), "r": r, "pos": rng.randint(0, 2)}
         steps.append(st)
-        if st["k"] not in ("use", "poke"):
+        if st["k"] not in ("use", "poke", "probe"):
             nlists += 1
     return {"op": "history", "n0": n0, "steps": steps}
 
@@ -146,6 +180,12 @@ def impl(case):
                 if st["k"] == "use":
                     lod.pluck("a")
                     new = None
+                elif st["k"] == "probe":
+                    new = None
+                    try:
+                        probe(lod, st, other)
+                    except Exception as e:
+                        rec["raised"] = f"{type(e).__name__}"
                 elif st["k"] == "poke":
                     new = None
                     if st["pos"] < len(lod):
@@ -189,7 +229,7 @@ def model_ops(case, obs):
         if "err" in rec:
             break
         k = st["k"]
-        if k == "use":
+        if k in ("use", "probe"):
             ops.append({"k": "use", "r": st["r"]})
         elif k == "poke":
             ops.append({"k": "poke", "r": st["r"], "pos": st["pos"] if rec.get("poked") else 10 ** 6})
@@ -237,7 +277,7 @@ def judge(ctx, case, obs, mouts):
         if rec["warnings"] != exp_warn:
             ctx.violation("oracle", "warn-once", f"step printed {rec['warnings']} warnings, expected {exp_warn} (list {r} obsolete={rec['obs_before'][r]}, warned before={r in warned and exp_warn == 0})", sub, rec)
         # -- isolation: which dict objects may change
-        if k in ("derive", "use", "deepcopy", "fresh"):
+        if k in ("derive", "use", "deepcopy", "fresh", "probe"):
             if rec["changed"]:
                 ctx.violation("oracle", f"{st['m']}:modifies-items", f"non-modifying call {st['m']} changed dict objects {rec['changed']}", sub, rec)
         if k == "edit":
@@ -317,7 +357,7 @@ def judge(ctx, case, obs, mouts):
                     break
                 sub = {"op": "history", "n0": case["n0"], "steps": steps[:idx + 1]}
                 st = steps[idx]
-                keep_known = rec.get("keep") is not None or st["k"] in ("use", "poke", "deepcopy", "fresh")
+                keep_known = rec.get("keep") is not None or st["k"] in ("use", "poke", "probe", "deepcopy", "fresh")
                 if (1 if mo["warn"] else 0) != rec["warnings"]:
                     ctx.violation("correspondence", "warn:differs", "model and implementation disagree on the warning", sub, rec, mo)
                     break
